@@ -435,6 +435,57 @@ func execConv(op string, a []string) string {
 			}
 		}
 		return "ok"
+	case "conv.bigkeyset":
+		// conv.bigkeyset <n>: a key set of n symmetric keys (hundreds to thousands: a fleet, a tenant directory) survives
+		// CBOR — as many keys come back, each is found under its kid, encodes as it did, and MACs as it did
+		n, _ := strconv.Atoi(a[0])
+		if n <= 0 || n > 70000 {
+			return "bad-op"
+		}
+		var ks key.KeySet
+		for i := 0; i < n; i++ {
+			kb := make([]byte, 32)
+			for j := range kb {
+				kb[j] = byte(i*31 + j*7 + i>>8)
+			}
+			k, err := hmac.KeyFrom(iana.AlgorithmHMAC_256_64, kb)
+			if err != nil {
+				return "err key"
+			}
+			k.SetKid([]byte{'k', byte(i >> 16), byte(i >> 8), byte(i)})
+			ks = append(ks, k)
+		}
+		data, err := key.MarshalCBOR(ks)
+		if err != nil {
+			return "BIG-KEYSET-NOT-ENCODED " + err.Error()
+		}
+		var back key.KeySet
+		if err := key.UnmarshalCBOR(data, &back); err != nil {
+			return "BIG-KEYSET-NOT-DECODED " + err.Error()
+		}
+		if len(back) != n {
+			return fmt.Sprintf("BIG-KEYSET-LENGTH %d of %d", len(back), n)
+		}
+		for _, i := range []int{0, 1, 23, 24, 255, 256, 257, n / 2, n - 2, n - 1} {
+			if i < 0 || i >= n {
+				continue
+			}
+			got := back.Lookup(ks[i].Kid())
+			if got == nil || !bytes.Equal(key.MustMarshalCBOR(got), key.MustMarshalCBOR(ks[i])) {
+				return fmt.Sprintf("BIG-KEYSET-KEY-%d-LOST", i)
+			}
+			m1, e1 := ks[i].MACer()
+			m2, e2 := got.MACer()
+			if e1 != nil || e2 != nil {
+				return fmt.Sprintf("BIG-KEYSET-KEY-%d-UNUSABLE", i)
+			}
+			t1, _ := m1.MACCreate([]byte("fleet"))
+			t2, _ := m2.MACCreate([]byte("fleet"))
+			if !bytes.Equal(t1, t2) {
+				return fmt.Sprintf("BIG-KEYSET-KEY-%d-DIFFERS", i)
+			}
+		}
+		return "ok"
 	case "conv.keyset":
 		// conv.keyset <n> <kidStyle> <opsStyle>: a key set of n signing keys with distinct kids (the last one without kid):
 		// look-ups by kid return exactly the first entry whose kid is byte-equal or nothing, Signers / Verifiers keep order and
@@ -576,6 +627,9 @@ func execConv(op string, a []string) string {
 func genConvOps(r *mrand.Rand, n int) []string {
 	var out []string
 	for i := 0; i < n; i++ {
+		if i%20 == 3 { // fixed slots: key sets beyond the sizes at which CBOR heads (and any decoder limit) change
+			out = append(out, fmt.Sprintf("conv.bigkeyset %d", []int{257, 300, 1000, 24, 256, 4097, 65537}[(i/20)%7]))
+		}
 		switch r.Intn(6) {
 		case 5:
 			out = append(out, fmt.Sprintf("conv.recipients %d", r.Intn(5)))
